@@ -15,9 +15,10 @@ GROUP = {"GModule": "mod", "GUses": "mod", "GUsedBy": "mod", "GFile": "file", "G
 REG_LISTS = ["types", "procedures", "submodprocedures", "modules", "submodules", "programs", "files", "blockdata"]
 
 
-def graphs_module():
+def graphs_module(patch=True):
     import ford.graphs as g
-    g.graphviz_installed = False        # keep graph.dot.source, skip dot.pipe()
+    if patch:
+        g.graphviz_installed = False        # keep graph.dot.source, skip dot.pipe()
     return g
 
 
@@ -25,7 +26,7 @@ class Spy:
     """Records every FortranGraph in construction order together with the root entities it was given."""
 
     def __init__(self):
-        self.g = graphs_module()
+        self.g = graphs_module(patch=False)
         self.log = []
 
     def __enter__(self):
